@@ -154,8 +154,38 @@ func c02r2(c *Check) {
 		}
 		cc := callCommon(in)
 		for i, want := range wantArg {
-			_, f, ok := fieldLoad(cc.Args[i])
+			base, f, ok := fieldLoad(cc.Args[i])
 			c.Judge(ok && f.Name() == want, fmt.Sprintf("cfg.Config.TableConfig arg%d ← Config.%s", i, want), c.At(in), "argument is the equally named configuration field", fmt.Sprintf("argument %d of NewTableConfig is not Config.%s: the configured value does not reach the table", i, want))
+			if !ok || i < 2 {
+				continue
+			}
+			// the configured level / order flag is handed on as parsed: the method does not overwrite it on the way
+			// (every value of these settings, the zero value included, is a documented choice)
+			bad := ""
+			if al, isAl := base.(*ssa.Alloc); isAl {
+				for _, r := range *al.Referrers() {
+					switch r := r.(type) {
+					case *ssa.Store:
+						if r.Addr == al {
+							if _, fromParam := r.Val.(*ssa.Parameter); !fromParam {
+								bad = "the configuration value is replaced as a whole at " + c.At(r)
+							}
+						}
+					case *ssa.FieldAddr:
+						if fieldOfAddr(r).Name() != want {
+							continue
+						}
+						for _, fr := range *r.Referrers() {
+							if st, isSt := fr.(*ssa.Store); isSt && st.Addr == r {
+								bad = "Config." + want + " is overwritten at " + c.At(st) + " before it is handed to the table"
+							}
+						}
+					}
+				}
+			} else if _, isPar := base.(*ssa.Parameter); !isPar {
+				bad = "the argument is not read from the receiver"
+			}
+			c.Judge(bad == "", fmt.Sprintf("cfg.Config.TableConfig Config.%s handed on as parsed", want), c.At(in), "no write to the setting between parsing and NewTableConfig", bad+": a configured "+want+" (whose zero value is a valid, documented choice) silently becomes another one")
 		}
 	})
 }
